@@ -59,3 +59,65 @@ Print Assumptions C08_time_mask_nonempty.
 Print Assumptions C08_dilation_ge_1.
 Print Assumptions C08_kept_taps_progression.
 Print Assumptions C08_upstream_empty_kernel_refuted.
+
+(* ================================================================================================
+   Composition with the network-level annotation model of C09 (Model/Calc.v, Model/CalcMasks.v):
+   NETWORK level, for EVERY well-formed network of the C09 IR and EVERY family of rational parameter
+   vectors `alpha` (one vector per sharing component of build_shared_features_map, of the component's
+   width — alpha_ok_b; zero, negative and huge entries included): `comp_mask nt alpha` gives each
+   searchable layer the binarized keep-alive mask of its component (all ones for a frozen component).
+   pos_b: no declared width (input, layer, flatten multiplier) is zero. *)
+Require Import Plinio.Model.Calc Plinio.Proofs.Calc Plinio.Model.CalcMasks Plinio.Proofs.CalcMasks.
+
+(* (1) the assignment is one the repaired sharing can produce: all C09 *_full theorems apply to it *)
+Theorem C08_params_give_consistent_masks : forall nt alpha, alpha_ok_b nt alpha = true ->
+  consistent_b true nt (comp_mask nt alpha) = true.
+Proof. exact comp_consistent. Qed.
+
+(* (2) no parameter setting searches a layer out of existence: every searchable layer keeps >= 1 output
+   feature, and every tensor of the exported network has >= 1 feature *)
+Theorem C08_layer_keeps_a_feature : forall nt alpha, alpha_ok_b nt alpha = true -> pos_b nt = true ->
+  forall i, (i < length nt)%nat -> is_search_layer (node_at nt i) = true -> (1 <= count (comp_mask nt alpha i))%nat.
+Proof. exact comp_layer_alive. Qed.
+
+Theorem C08_exported_width_ge_1 : forall nt alpha, wf nt = true -> alpha_ok_b nt alpha = true -> pos_b nt = true ->
+  forall j, (j < length nt)%nat -> (1 <= nth j (xwidths nt (comp_mask nt alpha)) 0)%nat.
+Proof. exact comp_xwidth_pos. Qed.
+
+(* (3) frozen (input/output-tied, excluded-layer-tied, concat-tied) components keep their full width *)
+Theorem C08_frozen_component_full_width : forall nt alpha, alpha_ok_b nt alpha = true ->
+  forall i c, (i < length nt)%nat -> is_search_layer (node_at nt i) = true ->
+  masker_of true nt i = Some (c, true) -> comp_mask nt alpha i = repeat true (nth i (widths nt) 0%nat).
+Proof. exact frozen_full. Qed.
+
+(* (4) for every parameter setting the exported network is shape-consistent and non-empty: every exported
+   module's input width equals its producer's exported width and is >= 1, every exported layer has >= 1 output *)
+Theorem C08_export_consistent_for_all_params : forall nt alpha, wf nt = true -> alpha_ok_b nt alpha = true -> pos_b nt = true ->
+  shape_ok true nt (comp_mask nt alpha) = true /\
+  (forall j, (j < length nt)%nat -> (1 <= nth j (xwidths nt (comp_mask nt alpha)) 0)%nat) /\
+  (forall i, (i < length nt)%nat -> consumer nt i = true ->
+     export_in true nt (comp_mask nt alpha) i = nth (src1 (node_at nt i)) (xwidths nt (comp_mask nt alpha)) 0%nat /\
+     (1 <= export_in true nt (comp_mask nt alpha) i)%nat) /\
+  (forall i, (i < length nt)%nat -> is_search_layer (node_at nt i) = true ->
+     (1 <= nth i (xwidths nt (comp_mask nt alpha)) 0)%nat).
+Proof. exact comp_export_ok. Qed.
+
+(* a 12-node network (residual add, depthwise, cat of searchable / excluded / input tensors, BatchNorm, flatten x4)
+   with adversarial parameters: all-zero, -10^30, 1/4, negative *)
+Definition c08_net : net :=
+  [NIn 3; NLayer 0 4 Full true; NProp 1 TPlain; NLayer 2 4 Full true; NJoin 2 3 false; NLayer 4 4 Dw true;
+   NLayer 0 2 Full false; NCat [5; 6; 0]; NBn 7 true; NLayer 8 3 Full true; NFlat 9 4 FFlatten; NLayer 10 2 Full true]%nat.
+Definition c08_alpha := qassoc [(1%nat, [0; 0; 0; 0]%Q); (9%nat, [-(1000000000000000000000000000000 # 1); 1 # 4; 0]%Q); (11%nat, [0; -3]%Q)].
+Example C08_net_example :
+  wf c08_net = true /\ alpha_ok_b c08_net c08_alpha = true /\ pos_b c08_net = true /\
+  map (comp_mask c08_net c08_alpha) [1; 3; 5; 9; 11]%nat =
+    [[false; false; false; true]; [false; false; false; true]; [false; false; false; true]; [true; false; true]; [true; true]] /\
+  xwidths c08_net (comp_mask c08_net c08_alpha) = [3; 1; 1; 1; 1; 1; 2; 6; 6; 2; 8; 2]%nat /\
+  shape_ok true c08_net (comp_mask c08_net c08_alpha) = true.
+Proof. vm_compute. repeat split. Qed.
+
+Print Assumptions C08_params_give_consistent_masks.
+Print Assumptions C08_layer_keeps_a_feature.
+Print Assumptions C08_exported_width_ge_1.
+Print Assumptions C08_frozen_component_full_width.
+Print Assumptions C08_export_consistent_for_all_params.
